@@ -799,7 +799,7 @@ func hpMutate(r *rand.Rand, b []byte) []byte {
 
 func cmdHpackDec(args []string) error {
 	fs := flag.NewFlagSet("hpackdec", flag.ExitOnError)
-	mode := fs.String("mode", "ex", "ex | exfull | expairs | lim | sweep | rand | bytes2 | bytes2p | bytes3 | mut | file")
+	mode := fs.String("mode", "ex", "ex | exfull | expairs | lim | sweep | rand | bytes2 | bytes2p | bytes3 | varint | mut | file")
 	in := fs.String("in", "", "file mode: ndjson trace lines to re-execute")
 	out := fs.String("out", "hpackdec", "output prefix")
 	seed := fs.Int64("seed", 1, "seed")
@@ -888,6 +888,51 @@ func hpDecMode(rec *hpDecRec, md string, full, core []hpTmpl, inFile string, see
 		for a := 0; a < 256; a++ {
 			for b := 0; b < 256; b++ {
 				one([]byte{byte(a), byte(b)})
+			}
+		}
+	case "varint":
+		// boundary integers in every integer position of RFC 7541 (index, name index, size update, string length),
+		// up to 64 bits: alone, behind a table-filling block, and followed by an ordinary field
+		vals := []uint64{0, 1, 14, 15, 16, 30, 31, 32, 61, 62, 63, 64, 126, 127, 128, 255, 256, 4095, 4096, 4097, 16383, 16384, 65535, 65536,
+			1<<28 - 1, 1 << 28, 1<<31 - 1, 1 << 31, 1<<32 - 1, 1 << 32, 1<<32 + 1, 1<<32 + 64, 1<<32 + 100, 1<<32 + 4096, 1<<32 + 4097, 1 << 33,
+			1<<40 + 7, 1 << 53, 1<<63 - 1, 1 << 63, 1<<64 - 1}
+		enc := func(n uint, flags byte, v uint64) []byte {
+			max := uint64(1)<<n - 1
+			if v < max {
+				return []byte{flags | byte(v)}
+			}
+			out := []byte{flags | byte(max)}
+			v -= max
+			for v >= 128 {
+				out = append(out, byte(v&0x7f)|0x80)
+				v >>= 7
+			}
+			return append(out, byte(v))
+		}
+		type ipos struct {
+			pre  []byte // octets before the integer
+			n    uint
+			fl   byte
+			tail []byte // octets after it that complete the representation when the integer is small
+		}
+		positions := []ipos{
+			{nil, 7, 0x80, nil},                    // indexed field
+			{nil, 6, 0x40, []byte{1, 'v'}},         // literal with indexing, name index
+			{nil, 4, 0x00, []byte{1, 'v'}},         // literal without indexing, name index
+			{nil, 4, 0x10, []byte{1, 'v'}},         // literal never indexed, name index
+			{nil, 5, 0x20, nil},                    // dynamic table size update
+			{[]byte{0x40}, 7, 0x00, []byte("nv")},  // name length (raw)
+			{[]byte{0x40}, 7, 0x80, []byte("nv")},  // name length (Huffman)
+			{[]byte{0x40, 1, 'n'}, 7, 0x00, []byte("v")}, // value length
+			{[]byte{0x0f, 0x00}, 7, 0x00, []byte("v")},   // value length after a two-octet name index
+		}
+		for _, p := range positions {
+			for _, v := range vals {
+				b := append(append(append([]byte{}, p.pre...), enc(p.n, p.fl, v)...), p.tail...)
+				rec.run("varint", 4096, [][]byte{b})
+				rec.run("varint", 4096, [][]byte{b, {0x82}})
+				rec.run("varint", 4096, [][]byte{hpPrefixBlock(), append(append([]byte{}, b...), 0x82)})
+				rec.run("varint", 100, [][]byte{b})
 			}
 		}
 	case "bytes3":
